@@ -197,9 +197,9 @@ def table_histories(chk, gwbin, built):
     chk.samples.append({"program": hists[0][3][:10]})
 
 
-def settings_readback(chk, gwbin):
+def settings_readback(chk, gwbin, label="xattr", cfg=None):
     """every setting kind x every valid document: read back as written, through a restart, gone once deleted; create-on-existing changes nothing"""
-    with gw.Site({"iam": True, "versioning": True}, name="c16s") as site:
+    with gw.Site(cfg or {"iam": True, "versioning": True}, name="c16s") as site:
         g = site.gateway(gwbin)
         R = s3c.Client(g.port, "root", "rootsecret")
         R.req("PATCH", "/create-user", body=b"<Account><Access>u1</Access><Secret>u1-secret</Secret><Role>userplus</Role><UserID>0</UserID><GroupID>0</GroupID></Account>")
@@ -271,6 +271,28 @@ def settings_readback(chk, gwbin):
                 rd = R.req("DELETE", "/" + bk, query={kind: ""}); gone = get(); restart(); gone2 = get()
                 if rd.status in (200, 204) and (gone not in (None, {}) or gone2 not in (None, {})):
                     chk.fail("c16:setting-survives-delete:" + kind, "%s still reads %r / %r after it was deleted" % (kind, gone, gone2), {"kind": kind})
+        # a setting replaced (not deleted first) by a shorter document reads back as the shorter document, nothing of the longer one
+        by_kind = {}
+        for kind, doc, put, get, deletable in kinds:
+            by_kind.setdefault(kind, []).append((len(json.dumps(doc, default=str)), doc, put, get))
+        for kind, lst in by_kind.items():
+            lst.sort(key=lambda x: x[0])
+            (l1, short, put_s, get_), (l2, long_, put_l, _) = lst[0], lst[-1]
+            if l1 == l2: continue
+            for _round in range(2):
+                rl = put_l(); gl = get_(); rs = put_s(); gs = get_(); restart(); gs2 = get_()
+                chk.case(("setting-shrinks", label, kind, _round), True); chk.traces += 1; chk.count("setting-shrinks:%s:%s:%d/%d" % (label, kind, rl.status, rs.status))
+                want_s, want_l = (tuple(short) if isinstance(short, tuple) else short), (tuple(long_) if isinstance(long_, tuple) else long_)
+                if rl.status in (200, 204) and rs.status in (200, 204) and (gl != want_l or gs != want_s or gs2 != want_s):
+                    chk.fail("c16:setting-readback-after-replace:%s:%s" % (label, kind), "[%s] %s written as %r (read back %r) and then replaced by the shorter %r reads back as %r, after a restart %r" % (
+                        label, kind, long_, gl, short, gs, gs2), {"config": label, "kind": kind, "long": long_, "short": short, "got_long": gl, "got_short": gs, "got_short_after_restart": gs2})
+                    break
+        for grants_l, grants_s in (([("u2", "READ_ACP"), ("adm", "READ"), ("u2", "WRITE_ACP"), ("adm", "WRITE")], [("u2", "READ")]),):
+            R.req("PUT", "/" + bk, query={"acl": ""}, body=acl_doc(grants_l)); r = R.req("PUT", "/" + bk, query={"acl": ""}, body=acl_doc(grants_s))
+            got = getacl(); restart(); got2 = getacl()
+            chk.case(("acl-shrinks", label), True); chk.traces += 1
+            if r.status in (200, 204) and (got is None or [x for x in got[1] if x[0] != "u1"] != sorted(grants_s) or got2 != got):
+                chk.fail("c16:setting-readback-after-replace:%s:acl" % label, "[%s] a bucket ACL with the grants %r replaced by %r reads back %r (after a restart %r)" % (label, grants_l, grants_s, got, got2), {"config": label})
         # create on an existing bucket: refused, nothing changes
         R.req("PUT", "/" + bk, query={"tagging": ""}, body=b"<Tagging><TagSet><Tag><Key>keep</Key><Value>me</Value></Tag></TagSet></Tagging>")
         R.req("PUT", "/%s/content" % bk, body=b"kept")
@@ -448,6 +470,7 @@ def run(chk):
     table_histories(chk, gwbin, built)
     recreate_fresh(chk, gwbin)
     settings_readback(chk, gwbin)
+    settings_readback(chk, gwbin, "sidecar", {"iam": True, "versioning": True, "meta": "sidecar"})
     races(chk, gwbin)
 
 
